@@ -1,1 +1,2 @@
 //! Reference models: independent of the library's matching code.
+pub mod pat;
